@@ -10,6 +10,8 @@ CONFIG = {
         "rule": "corpus (one witness op per open finding + the witnesses of fixed findings) then a seeded generator of j5s roots: "
                 "`object Foo` (5 in 6; optional description, entity annotation with every part, any-membership, sometimes an "
                 "entity-annotated referenced object and a field called `keys`) or `oneof Foo` (1 in 6) with 1-4 fields / options: "
+                "property names from a pool of canonical lowerCamel names and names that do not survive snake_case -> lowerCamel (acronyms, digits, "
+                "capital runs, single letters), for every kind and cardinality; "
                 "every field type as single field, array (1 in 4) or map (1 in 7, with minPairs/maxPairs/singleForm), rules as in "
                 "compile.rules plus descriptions, list filter/sort/search settings (enum default filters: 9 in 10 naming options, "
                 "with or without prefix), flatten, key formats, primary/foreign/tenant entity keys, enum declarations with "
@@ -27,7 +29,9 @@ CONFIG = {
         "hand-written model J5V/Rules/Root.lean (visitObjectNode / visitOneofNode message options, findPSMOptions incl. the legacy `keys` lookup, "
         "isOneofWrapper by message option); the (j5.ext.v1.psm) annotation of referenced objects is a parameter (`RefPsm`)",
         "list-rule payloads are copied verbatim by writer and reader models; only filtering.defaultFilters is decoded (the compiler checks it for enum fields)",
-        "strcase.ToSnake(name) = \"keys\" only for the j5 name `keys` (lowerCamel letter names of the generator)",
+        "iancoleman/strcase (ToSnake for proto field names, ToScreamingSnake for default enum prefixes) as modelled byte-level in "
+        "J5V/Compile/Strcase.lean (compile cluster; validated by their streams and, here, by the `pname` / `epfx` keys of this stream); "
+        "the harness's declared side calls the real library (third party, not under verification)",
         "protocompile (linking, re-parsing) and protoprint are outside the model: the text path is a Go-side oracle only (composition with C05)",
         "the Go harness internal/verifh/rulesh",
     ],
